@@ -61,7 +61,7 @@ PROPS = {
                      "zarr refuses to create an array that already exists (the 'length' clash)"],
     ),
     "C08": dict(
-        units=["GenIcfWriter", "GenIterValues"],
+        units=["GenIcfWriter", "GenIterValues", "GenSummary"],
         trusted_extra=["translator/icfw2coq.py (IcfFieldWriter -> Gen/GenIcfWriter.v; the read side matched against one shape)"],
         props_files=["Props/C08.v"],
         driver="c08",
@@ -107,7 +107,7 @@ PROPS = {
         assumptions=["cyvcf2 reports PL as an int32 array with INT_MIN for missing and INT_MIN+1 for vector end"],
     ),
     "C04": dict(
-        units=["GenBins", "GenRegions", "GenOffsets"],
+        units=["GenBins", "GenRegions", "GenOffsets", "GenRefine"],
         props_files=["Props/C04.v"],
         driver="c04",
         rule="generated VCF/BCF (window-spanning and bin-exceeding records, duplicate positions, used/unused/skipped contigs, "
